@@ -336,6 +336,8 @@ impl<'w, 's> ReactCommands<'w, 's>
             let mut callback = RawCallbackSystem::new(reactor);
             let result = callback.run_with_cleanup(world, (), move |w| cleanup.run(w));
             result.handle(world);
+            #[cfg(cobweb_verif)]
+            crate::verif::emit(crate::verif::Event::OnceDespawn{ sys: entity, alive: world.get_entity(entity).is_ok() });
             world.get_entity_mut(entity).ok().map(|e| e.despawn());
             world.react(|rc| rc.revoke(revoke_token_clone));
         });
